@@ -21,6 +21,28 @@ pub mod lifted {
     pub fn verif_timeout_bounds() -> (Duration, Duration) {
         (MIN_DNS_TIMEOUT, MAX_DNS_TIMEOUT)
     }
+    // C07: the timer arm of send_udp's select loop (give up / back off), statements lifted verbatim; the random jitter is
+    // an arbitrary value of the range the code asks for (rand panics on an empty range: kept as an obligation)
+    pub struct JitterShim;
+    impl JitterShim {
+        pub fn random_range(&self, r: std::ops::Range<Duration>) -> Duration {
+            assert!(r.start < r.end, "random_range on an empty range panics");
+            #[cfg(kani)]
+            {
+                let secs: u64 = kani::any();
+                let nanos: u32 = kani::any();
+                kani::assume(nanos < 1_000_000_000);
+                let d = Duration::new(secs, nanos);
+                kani::assume(d >= r.start && d < r.end);
+                d
+            }
+            #[cfg(not(kani))]
+            {
+                r.start
+            }
+        }
+    }
+    include!(concat!(env!("VERIF_GEN_DIR"), "/outquery_retry_arm.rs"));
 }
 
 #[cfg(kani)]
@@ -46,5 +68,43 @@ mod k {
         kani::cover!(n > 1 && dur_ms < ini_ms && cell != Duration::from_millis(cur_ms), "lowered after a fast reply");
         kani::cover!(n > 1 && dur_ms >= ini_ms && cell > Duration::from_millis(cur_ms), "raised after a slow reply");
         assert!(cell >= mn && cell <= mx, "retransmission timeout within its documented bounds after the update");
+    }
+
+    /// VERIF: {"p":"C07","tier":"quick","fns":["dns::outquery::OutQuery::send_udp (timer arm of the select loop: give-up test and backoff statements lifted from source)"],"bounds":"first retry delay anywhere within [MIN_DNS_TIMEOUT, MAX_DNS_TIMEOUT] at ms granularity (the range the adaptive timeout is proved to stay in), every jitter an arbitrary Duration (ns granularity) of the range the code asks for, an upstream that never answers, up to 6 timer expiries","oracle":"a silent upstream ends in Error::Timeout (which create_in_error turns into SERVFAIL) after at most 5 transmissions; every retry delay is at least 1.5x and less than 2.5x the previous one; the total time waited is below 66 x MAX_DNS_TIMEOUT; no arithmetic panic, no empty jitter range","stubs":["statements lifted verbatim from send_udp; attempts.len() is the number of transmissions made so far (one push per loop iteration, none completes); rand::rng().random_range = arbitrary value of the requested range; the retry counter metric is dropped"],"covers":2,"unwind":8}
+    #[kani::proof]
+    #[kani::unwind(8)]
+    fn c07_silent_upstream_times_out_after_bounded_backoff() {
+        let (mn, mx) = verif_timeout_bounds();
+        let ini_ms: u64 = kani::any();
+        kani::assume(ini_ms >= mn.as_millis() as u64 && ini_ms <= mx.as_millis() as u64);
+        let mut timeout = Duration::from_millis(ini_ms);
+        let mut waited = Duration::ZERO;
+        let mut sent = 0usize;
+        let mut gave_up = false;
+        let mut i = 0;
+        while i < 6 {
+            sent += 1; // attempts.push(self.send_single_udp(..)): one more transmission, none is ever answered
+            waited += timeout; // the sleep arm fires
+            match lifted_outquery_retry_arm(sent, timeout, &JitterShim) {
+                Err(e) => {
+                    let is_timeout = matches!(e, Error::Timeout);
+                    std::mem::forget(e);
+                    assert!(is_timeout, "a silent upstream is reported as Error::Timeout");
+                    gave_up = true;
+                    break;
+                }
+                Ok(next) => {
+                    assert!(next >= timeout + timeout / 2, "the retry delay grows by at least x1.5");
+                    assert!(next - timeout - timeout / 2 < timeout, "the retry delay grows by less than x2.5");
+                    timeout = next;
+                }
+            }
+            i += 1;
+        }
+        kani::cover!(gave_up && sent >= 2, "gave up after retransmitting");
+        kani::cover!(gave_up && waited > mx * 20, "slowest give-up");
+        assert!(gave_up, "a silent upstream ends in a timeout within 6 timer expiries");
+        assert!(sent <= 5, "at most 5 transmissions of an upstream query");
+        assert!(waited < mx * 66, "the client's failure response is due within a bounded time");
     }
 }
